@@ -15,6 +15,7 @@ func init() {
 				{Harness: "c05.bytes", Mode: "plain", Shards: 16},
 				{Harness: "c05.tokens", Mode: "plain", Shards: 16, Deadline: tiered(tier, 0, 0)},
 				{Harness: "c05.edits", Mode: "plain", Shards: 16},
+				{Harness: "c05.bytes256", Mode: "plain", Shards: 16},
 				{Harness: "c05.strings", Mode: "plain", Shards: 8},
 				{Harness: "c05.numbers", Mode: "plain", Shards: 8},
 			}
